@@ -140,6 +140,9 @@ class Driver(object):
                 pass
             except PathEnd as pe:
                 results.append((self.trace_dec(), pe.outcome))
+                if pe.outcome in ('float()-of-symbolic', 'unsupported-pow', 'nonfinite-constant', 'str()-of-symbolic-string'):
+                    # the value classes could not follow the code under test along this path: the path is NOT explored, the run is not exhaustive
+                    self.cut_paths = getattr(self, 'cut_paths', 0) + 1
             except Budget:
                 self.s.pop()
                 return results
@@ -147,7 +150,7 @@ class Driver(object):
                 pass
             self.s.pop()
             self.paths += 1
-        self.exhaustive = True
+        self.exhaustive = getattr(self, 'cut_paths', 0) == 0
         return results
 
     def placeholder(self, term):
